@@ -518,6 +518,14 @@ fn c10(tier: &str, thorough: bool) -> i32 {
     ctx.note(format!("handle sequences with refused seeks: configs={} sequences={} calls={}", st.configs, st.sequences, st.calls));
     tot.0 += st.sequences;
     tot.1 += st.calls;
+    // two handles on one stream: refused calls (set_len beyond the maximum, out-of-range seeks) on one handle
+    // after the stream was resized or extended through the other
+    {
+        let (cases, runs) = crate::e3::explore_two_handle_refusals(&ctx);
+        ctx.note(format!("two handles on one stream, refused call vs same history without it: cases={} runs={}", cases, runs));
+        tot.0 += cases;
+        tot.1 += runs;
+    }
     ctx.finish(tot.0, tot.1)
 }
 
@@ -684,11 +692,18 @@ fn c12(tier: &str, thorough: bool) -> i32 {
                 Ok(b) => b,
                 Err(_) => continue,
             };
+            // two regimes: a failed call is retried (up to three times) before the workload goes on, or the
+            // caller simply goes on with its next call
             let stats: Vec<crate::e4::FaultStats> = gen
                 .par_iter()
-                .map(|(name, max_buf, steps, prefix_len)| {
-                    let case = crate::e4::FaultCase { no_retry: false, generated: true, with_interrupted: true, workload: name.clone(), version: v, max_buf: *max_buf, steps: steps.clone(), plan: vec![], kinds: vec![CallKind::Read, CallKind::Seek], read_only: true };
-                    crate::e4::explore_from(ctx, &case, Some(&base), &[CallKind::Read, CallKind::Seek], crate::e4::Pairs::None, *prefix_len)
+                .flat_map(|(name, max_buf, steps, prefix_len)| {
+                    [false, true]
+                        .into_iter()
+                        .map(|no_retry| {
+                            let case = crate::e4::FaultCase { no_retry, generated: true, with_interrupted: true, workload: name.clone(), version: v, max_buf: *max_buf, steps: steps.clone(), plan: vec![], kinds: vec![CallKind::Read, CallKind::Seek], read_only: true };
+                            crate::e4::explore_from(ctx, &case, Some(&base), &[CallKind::Read, CallKind::Seek], crate::e4::Pairs::None, *prefix_len)
+                        })
+                        .collect::<Vec<_>>()
                 })
                 .collect();
             let (mut r, mut c, mut p, mut d) = (0u64, 0u64, 0u64, 0u64);
@@ -936,6 +951,14 @@ fn c07(tier: &str, thorough: bool) -> i32 {
         let depth = if thorough { 5 } else { 4 };
         let st = crate::e1h::explore_stale(ctx, v, depth);
         ctx.note(format!("v{} handles outliving their stream, depth {}: sequences={} actions={}", v, depth, st.sequences, st.actions));
+        seqs += st.sequences;
+        acts += st.actions;
+    }
+    // equal leaf names under two parents, handles re-opened by path in the middle of the history
+    for v in [3u16, 4] {
+        let depth = if thorough { 6 } else { 5 };
+        let st = crate::e1h::explore_namesakes(ctx, v, depth);
+        ctx.note(format!("v{} namesakes under two parents with re-opened handles, depth {}: sequences={} actions={}", v, depth, st.sequences, st.actions));
         seqs += st.sequences;
         acts += st.actions;
     }
@@ -1429,6 +1452,28 @@ pub fn replay(path: &str) -> i32 {
                 Some((class, msg)) => {
                     println!("VIOLATION-REPLAYED class={} {}", class, msg);
                     1
+                }
+            }
+        }
+        "two_handles" => {
+            let c: crate::e3::TwoHandleCase = match serde_json::from_value(case["two_handles"].clone()) {
+                Ok(c) => c,
+                Err(e) => {
+                    eprintln!("bad two-handle case: {}", e);
+                    return 2;
+                }
+            };
+            let without = crate::e3::TwoHandleCase { with_refused: false, ..c.clone() };
+            let (a, b) = (crate::e3::run_two_handle_case(&c), crate::e3::run_two_handle_case(&without));
+            println!("with the refused call:    {:?}\nwithout the refused call: {:?}", a, b);
+            match (a, b) {
+                (Ok((true, x)), Ok((_, y))) if x != y => {
+                    println!("VIOLATION-REPLAYED class=refusal later results differ");
+                    1
+                }
+                _ => {
+                    println!("no violation on replay");
+                    0
                 }
             }
         }
